@@ -30,6 +30,11 @@ var collCfgs = []collCfg{
 	{"idL>R", 0x0a000009, 0x0a000002, 65001, 65002, true},
 	{"id=,asL>R", 0x0a000005, 0x0a000005, 65009, 65002, true},
 	{"id=,asL<R", 0x0a000005, 0x0a000005, 65001, 65002, false},
+	// values more than 2^31 apart (a subtracting comparator gets these wrong)
+	{"idL>>R", 0xc0000201, 0x0a000001, 65001, 65002, true},
+	{"idL<<R", 0x0a000001, 0xc0000201, 65001, 65002, false},
+	{"id=,asL>>R", 0x0a000005, 0x0a000005, 4200000001, 65001, true},
+	{"id=,asL<<R", 0x0a000005, 0x0a000005, 65001, 4200000001, false},
 }
 
 // collObs is what the two remote connection scripts observed.
@@ -439,6 +444,9 @@ func c07Scenarios(th bool) []*Scn {
 					w, e, o := collRun(cfg, ch, trace, false, forcedPrecedenceScript(cfg, first), nil)
 					return finishRun("C07", "forced-precedence", w, e, trace, false, func() (string, string) { return judgeForcedPrecedence(first, w, o) }, nil)
 				}})
+		}
+		if ci >= 4 {
+			continue // the far-apart configurations only matter for the dominance rule
 		}
 		for _, kill := range []string{"", "fin-in", "fin-out", "garbage-in", "garbage-out"} {
 			kill := kill
